@@ -97,7 +97,7 @@ def to_coq(c):
             cb(r["name"]), cbl(r["files"]), cbl(r["select"]), cbl(r["ignore"]))
         return "CFileSet %s %s %s %s %d %s %s" % (
             cb("src"), tree, cb(c["p"]), rule, ERR.get(c.get("err", ""), 9), cb(c["out"]), cbl(c.get("outs")))
-    if op == "buildkey":
+    if op in ("buildkey", "download"):
         return None
     if op == "build":
         if c.get("err"):
@@ -358,6 +358,21 @@ def impl_oracle(c):
         for o in [c["out"]] + (c.get("deps") or []) + (c.get("outs") or []):
             if not segs_clean(o) or o.startswith("/"):
                 return ("impl:rule:unclean", "rule %s resolved a name to %r" % (c["kind"], o))
+    if op == "download":
+        stray = (c.get("stray") or []) + [d for d in (c.get("during") or []) if d not in (c.get("stray") or [])]
+        if stray:
+            return ("impl:write-outside-workspace:download",
+                    "building a download rule (%s) created %r outside <root>/out and <root>/src (TMPDIR = <base>/tmp, "
+                    "working directory = <base>/cwd, workspace = <base>/ws); seen while the body was sent: %r"
+                    % (c.get("kind"), c.get("stray") or [], c.get("during") or []))
+        for o in c.get("outs") or []:
+            if not segs_clean(o):
+                return ("impl:build:unclean", "download wrote %r under out/" % o)
+        if c.get("kind") in ("match", "empty") and c.get("err"):
+            return ("impl:download:failed", "a download with the right checksum failed: %s" % c.get("err"))
+        if c.get("kind") in ("mismatch", "truncated", "notfound") and not c.get("err"):
+            return ("impl:download:accepted", "a %s download was accepted" % c.get("kind"))
+        return None
     if op == "buildkey":
         bad = [p for p in c.get("changed") or [] if not (p == "deep/ws/out" or p.startswith("deep/ws/out/"))]
         if bad:
